@@ -19,4 +19,22 @@ fn main() {
     let t0 = Instant::now();
     let r = cedar_policy::Schema::from_cedarschema_str(&src);
     println!("  Schema::from_cedarschema_str {:?} ok={}", t0.elapsed(), r.is_ok());
+    if let Ok((schema, _)) = r {
+        let t0 = Instant::now();
+        let n = format!("{schema:?}").len();
+        println!("  schema Debug {:?} len {n}", t0.elapsed());
+        for ents in ["[{\"uid\":{\"type\":\"User\",\"id\":\"a\"},\"attrs\":{},\"parents\":[],\"tags\":{\"k\":1}}]", "[{\"uid\":{\"type\":\"User\",\"id\":\"a\"},\"attrs\":{},\"parents\":[]}]"] {
+            let t0 = Instant::now();
+            let r = cedar_policy::Entities::from_json_str(ents, Some(&schema));
+            println!("  Entities::from_json_str {:?} ok={}", t0.elapsed(), r.is_ok());
+            if let Err(e) = r {
+                let t0 = Instant::now();
+                let n = e.to_string().len();
+                println!("    error to_string {:?} len {n}", t0.elapsed());
+                let t0 = Instant::now();
+                let n = format!("{:?}", miette::Report::new(e)).len();
+                println!("    error fancy {:?} len {n}", t0.elapsed());
+            }
+        }
+    }
 }
